@@ -282,16 +282,21 @@ Definition char10_unit (c : N) : bool :=
 Definition char11_unit (c : N) : bool :=
   (c =? 9) || (c =? 0xA) || (c =? 0xD) || ((0x20 <=? c) && (c <=? 0x7E)) || (c =? 0x85) ||
   ((0xA0 <=? c) && (c <=? 0xD7FF)) || ((0xE000 <=? c) && (c <=? 0xFFFD)).
-Definition char_unit (xml11 : bool) (c : N) : bool := if xml11 then char11_unit c else char10_unit c.
+(** repaired (fixes/C12-xml11-restricted.patch): where the data can be written as character references (Text
+    nodes, attribute values: [refs = true]) the RestrictedChars of XML 1.1 are accepted, XMLFormatter writes them
+    as references; as found, ensureValidString refused them everywhere *)
+Definition char11_data (c : N) : bool := ((1 <=? c) && (c <=? 0xD7FF)) || ((0xE000 <=? c) && (c <=? 0xFFFD)).
+Definition char_unit (refs xml11 : bool) (c : N) : bool :=
+  if xml11 then (if refs then char11_data c else char11_unit c) else char10_unit c.
 
-Fixpoint valid_string (xml11 : bool) (s : list N) : bool :=
+Fixpoint valid_string (refs xml11 : bool) (s : list N) : bool :=
   match s with
   | [] => true
   | c :: r =>
-    if char_unit xml11 c then valid_string xml11 r
+    if char_unit refs xml11 c then valid_string refs xml11 r
     else if is_high c then
       match r with
-      | d :: r' => is_low d && valid_string xml11 r'
+      | d :: r' => is_low d && valid_string refs xml11 r'
       | [] => false
       end
     else false
@@ -327,31 +332,32 @@ Fixpoint ser_attrs (cf : scfg) (l : list (list N * list N)) : res (list N) serr 
   match l with
   | [] => Ok []
   | (n, v) :: r =>
-    if negb (valid_string (c_xml11 cf) v) then Err S_InvalidChar else
-    bind (ser_attrs cf r) (fun o =>
-      (* the name is written with NoEscapes but under UnRep_CharRef (setURCharRef is in force) *)
-      Ok ([32] ++ data16 cf NoEscapes n ++ [61; 34] ++ data16 cf AttrEscapes v ++ [34] ++ o))
+    (* repaired (fixes/C12-attrname-unrep.patch): the name is markup, written under UnRep_Fail; as found it was
+       written under UnRep_CharRef and an unrepresentable name character became a reference inside the name *)
+    bind (if c_fixed cf then markup cf (32 :: n) else Ok ([32] ++ data16 cf NoEscapes n)) (fun nm =>
+    if negb (valid_string (c_fixed cf) (c_xml11 cf) v) then Err S_InvalidChar else
+    bind (ser_attrs cf r) (fun o => Ok (nm ++ [61; 34] ++ data16 cf AttrEscapes v ++ [34] ++ o)))
   end.
 
 Fixpoint ser_node (cf : scfg) (n : node) : res (list N) serr :=
   match n with
   | Text s =>
-    if negb (valid_string (c_xml11 cf) s) then Err S_InvalidChar else Ok (data16 cf CharEscapes s)
+    if negb (valid_string (c_fixed cf) (c_xml11 cf) s) then Err S_InvalidChar else Ok (data16 cf CharEscapes s)
   | CData s =>
     if c_split cf then
       if c_fixed cf then
-        if negb (valid_string (c_xml11 cf) s) then Err S_InvalidChar
+        if negb (valid_string false (c_xml11 cf) s) then Err S_InvalidChar
         else Ok (flat_map citem_out (cdata_items (c_can cf) s))
       else Ok (flat_map citem_out (cdata_items_old (c_can cf) s))
     else
-      if negb (valid_string (c_xml11 cf) s) then Err S_InvalidChar else
+      if negb (valid_string false (c_xml11 cf) s) then Err S_InvalidChar else
       if Nat.ltb 1 (length (cdata_pieces_old s [])) then Err S_NestedCDATA else
       markup cf (ser_gStartCDATA ++ s ++ ser_gEndCDATA)
   | Comment s =>
-    if negb (valid_string (c_xml11 cf) s) then Err S_InvalidChar else
+    if negb (valid_string false (c_xml11 cf) s) then Err S_InvalidChar else
     markup cf (ser_gStartComment ++ s ++ ser_gEndComment)
   | PI t d =>
-    if negb (valid_string (c_xml11 cf) t && valid_string (c_xml11 cf) d) then Err S_InvalidChar else
+    if negb (valid_string false (c_xml11 cf) t && valid_string false (c_xml11 cf) d) then Err S_InvalidChar else
     markup cf (ser_gStartPI ++ t ++ (match d with [] => [] | _ => 32 :: d end) ++ ser_gEndPI)
   | Elem name attrs kids =>
     bind (markup cf (60 :: name)) (fun st =>
